@@ -208,6 +208,25 @@ func c19Check(work string, cs c19Case) (kind, detail, outcome string) {
 			return "null-input", fmt.Sprintf("yq -n %v with undecodable stdin: exit %d stdout %q stderr %q (expected %q)", cs.Extra, exit, out, serr, cs.Expr), outcome
 		}
 		return "", "", outcome
+	case "in-place":
+		// -i changes where the result goes, not what the exit status and stderr say
+		n := "in.yaml"
+		text := c19FileText(cs.Files[0])
+		os.WriteFile(filepath.Join(dir, n), []byte(text), 0o644)
+		_, rerr, rexit, _ := c10RunYq(dir, append(append([]string{}, cs.Flags...), cs.Expr, n)...)
+		_, ierr, iexit, _ := c10RunYq(dir, append(append([]string{"-i"}, cs.Flags...), cs.Expr, n)...)
+		after, _ := os.ReadFile(filepath.Join(dir, n))
+		outcome = fmt.Sprintf("exit=%d", iexit)
+		if (rexit == 0) != (iexit == 0) {
+			return "in-place-exit", fmt.Sprintf("yq %v %q exits %d (%s) but with -i it exits %d (%s)", cs.Flags, cs.Expr, rexit, clip(rerr, 100), iexit, clip(ierr, 100)), outcome
+		}
+		if iexit != 0 && strings.TrimSpace(ierr) == "" {
+			return "silent-failure", fmt.Sprintf("-i: exit %d with nothing on stderr", iexit), outcome
+		}
+		if iexit != 0 && string(after) != text {
+			return "in-place-modified-on-failure", fmt.Sprintf("-i %v %q exits %d but the file now holds %q", cs.Flags, cs.Expr, iexit, clip(string(after), 200)), outcome
+		}
+		return "", "", outcome
 	case "auto-format-stdin":
 		// the first input is stdin (`-`), which has no extension: both formats are YAML whatever the later file is called
 		n := "later." + cs.Extra[0]
@@ -305,7 +324,7 @@ func c19Run(c *fw.Ctx) error {
 			}
 		}
 	}
-	c.Res.Bound = fmt.Sprintf("%d input histories x %d expressions x %d output formats x %d flag sets (full product), -n with undecodable stdin, automatic format choice for every extension and every pair of extensions, and with stdin as the first input", len(hist), len(c19Exprs), len(c19Formats), len(c19FlagSets))
+	c.Res.Bound = fmt.Sprintf("%d input histories x %d expressions x %d output formats x %d flag sets (full product), -n with undecodable stdin, automatic format choice for every extension and every pair of extensions, and with stdin as the first input; -i against the same command without it (8 documents x 8 expressions x {-, -e})", len(hist), len(c19Exprs), len(c19Formats), len(c19FlagSets))
 	var idx int64
 	run := func(cs c19Case, order int64) {
 		idx++
@@ -347,6 +366,13 @@ func c19Run(c *fw.Ctx) error {
 	run(c19Case{Section: "null-input", Expr: "2", Extra: []string{"1 + 1"}}, 1)
 	run(c19Case{Section: "null-input", Expr: "a: 1", Extra: []string{".a = 1"}}, 2)
 	run(c19Case{Section: "null-input", Expr: `{"a":1}`, Extra: []string{"-o=json", "-I=0", ".a = 1"}}, 3)
+	for a := range c19Docs {
+		for _, e := range []string{".", ".a", ".missing", "select(.a)", "false", "null", ".a = (", ".a = 1"} {
+			for _, fl := range [][]string{nil, {"-e"}} {
+				run(c19Case{Section: "in-place", Files: [][]int{{a}}, Expr: e, Flags: fl}, 5)
+			}
+		}
+	}
 	exts := []string{"yaml", "yml", "json", "xml", "csv", "tsv", "toml", "properties", "lua", "txt"}
 	for _, e1 := range exts {
 		run(c19Case{Section: "auto-format", Expr: ".", Extra: []string{e1}}, 10)
